@@ -87,6 +87,13 @@ func (o *Outcome) selectViolation(prop string) {
 			o.Violation = v
 			return
 		}
+		if strings.HasPrefix(v.Oracle, "any.") {
+			// verdicts that concern every property of the world (the run never finished)
+			c := *v
+			c.Oracle = prop + "." + strings.TrimPrefix(v.Oracle, "any.")
+			o.Violation = &c
+			return
+		}
 	}
 }
 
